@@ -64,7 +64,9 @@ def draw_settings(rng, probe_nyquist):
     s = {"cls": cls, "policy": rng.choice(POLICIES), "width": rng.choice([0.0, 0.05, 0.1, 0.5, 1.0]),
          "op": op, "bw": bw, "fcs": fcs, "fcs_as": rng.choice(["list", "array", "tuple"]),
          "wtw_as": rng.choice(["list", "list", "tuple"]),
-         "fft_n": rng.choice([None, None, None, 4096, 65536])}
+         "fft_n": rng.choice([None, None, None, 4096, 65536, "none_key"])}
+    if rng.random() < 0.15:
+        rng.shuffle(s["fcs"])                       # centre frequencies need not be sorted
     if cls == "traditional":
         s["method"] = rng.choice(METHODS)
     if cls == "single_azimuth":
@@ -153,7 +155,7 @@ def draw_op(rng, name, n_rec, n_set, own):
         if rng.random() < 0.2 and k >= 1:
             idx.append(rng.choice(idx))                      # the same recording twice
         return {"op": "process", "recs": idx, "s": rng.randrange(n_set),
-                "own": own if rng.random() < 0.85 else (not own)}
+                "own": own if rng.random() < 0.85 else (not own), "as_tuple": rng.random() < 0.15}
     if name == "repeat":
         return {"op": "repeat", "which": rng.randrange(0, 8)}
     if name == "mutate_record":
@@ -189,7 +191,7 @@ def make_settings(H, s, fft_n="spec"):
     common = dict(window_type_and_width=wtw,
                   smoothing=dict(operator=s["op"], bandwidth=s["bw"], center_frequencies_in_hz=fcs),
                   handle_dissimilar_time_steps_by=s["policy"],
-                  fft_settings=None if n is None else {"n": int(n)})
+                  fft_settings=None if n is None else ({"n": None} if n == "none_key" else {"n": int(n)}))
     c = s["cls"]
     if c == "traditional":
         return H.HvsrTraditionalProcessingSettings(method_to_combine_horizontals=s["method"], **common)
@@ -320,9 +322,13 @@ def oracle_c03(ctx, st, op, records, settings, spec, res, exc):
         for kept in admissible:
             sub = [copy.deepcopy(records[i]) for i in kept]
             try:
-                ref = _process(H, sub, make_settings(H, spec, fft_n=n))
-            except ValueError:
-                continue                       # this candidate subset is refused by the result validation
+                rn = ref_fft(spec, n, max(r_.vt.n_samples for r_ in sub))
+                if rn is None:
+                    ok_any = True                  # no reference at this FFT length exists for the subset: not judged
+                    continue
+                ref = _process(H, sub, make_settings(H, spec, fft_n=rn))
+            except Exception:                    # noqa
+                continue                       # this candidate subset is refused (result validation, …): not a match
             if close(ref.amplitude, amp, 1e-10):
                 ok_any = True
         ctx.check(ok_any, "kept_subset_differs",
@@ -344,6 +350,8 @@ def oracle_c03(ctx, st, op, records, settings, spec, res, exc):
         bad = None
         for r, i in enumerate(kept):
             solo = solo_rows(st, records[i], spec, n)
+            if isinstance(solo, str):
+                continue
             if solo is None:
                 bad = ("rows", r, i, float("nan"))
                 break
@@ -367,8 +375,25 @@ def oracle_c03(ctx, st, op, records, settings, spec, res, exc):
     ctx.probe("c03_rows_judged")
 
 
+def ref_fft(spec, n, subset_max):
+    """How to obtain FFT length n for a reference call on a subset whose longest record has subset_max
+    samples: an explicit n is honoured only when it is not below the automatic length of the subset;
+    fft_settings={'n': None} ('no padding') gives exactly subset_max.  None = no such reference exists."""
+    p2 = 32768
+    while p2 <= subset_max:
+        p2 *= 2
+    if n >= p2:
+        return int(n)
+    if spec.get("fft_n") == "none_key" and subset_max == n:
+        return "none_key"
+    return None
+
+
 def solo_rows(st, record, spec, n):
     H = hv()
+    n = ref_fft(spec, n, record.vt.n_samples)
+    if n is None:
+        return "skip"
     key = (sha_array(record.ns.amplitude), sha_array(record.ew.amplitude), sha_array(record.vt.amplitude),
            record.ns.dt_in_seconds, record.degrees_from_north,
            canon({k: v for k, v in spec.items() if k not in ("policy", "fft_n")}), n)
@@ -376,8 +401,8 @@ def solo_rows(st, record, spec, n):
         try:
             res = _process(H, [copy.deepcopy(record)], make_settings(H, spec, fft_n=n))
             st.solo_cache[key] = rows_of(H, res)
-        except ValueError:
-            st.solo_cache[key] = None          # the solo result is refused by the result validation
+        except Exception:                      # noqa
+            st.solo_cache[key] = None          # the solo result is refused (result validation, …)
     return st.solo_cache[key]
 
 
@@ -409,6 +434,8 @@ def apply_op(ctx, st, op, prop):
         else:
             records = [copy.deepcopy(st.recs[i]) for i in idx]
             settings = make_settings(H, spec)
+        if op.get("as_tuple"):
+            records = tuple(records)                 # any sequence of recordings
         before = [snap(r) for r in st.recs]
         res, exc = None, None
         try:
